@@ -85,6 +85,42 @@ CLAIMED["C19"] = dict(
     text="Config file selection is proved to prefer a file that holds a bumpver section with a current_version, then any existing candidate, else bumpver.toml; write_content to append (mode 'at', utf-8) to that file only; init to refuse (exit 1) when configured and to write nothing under --dry. Every one of the 8192 layouts of the quantifier is run through the real code: the appended text is read back by bumpver itself from the same file.",
     note=TB + "X is evaluation, complete for the stated layouts ('unrelated content' is one representative text per format).",
 )
+CLAIMED["C02"] = dict(
+    category="other",
+    technique="contract-based deductive verification of every part's format function against its regex language (z3/cvc5) + complete enumeration of the calendar value domains under real regex priority semantics + bounded grammar round trips",
+    text="Proved (P): for every part, the real format function renders every value of the field's range into the language of the part's regex read from the current table (numeric parts for all integers, A-dec); parse_version_info returns only for a full match. Exhausted (X): every calendar part x every value in the image of cal_info over all dates 1000..9999, every tag, under re.match's priority semantics, decoded back to the same value. Bounded (B, never counted as proved): the composition (pattern compiler, optional-group rendering, read back, re-render) on generated grammar patterns.",
+    note=TB + "Known finding KF-C02-week-53 (week 53 rendered, not recognised; the repository's tests pin it) is reported, its witness class excluded from the four affected obligations. The pattern compiler and segment renderer (unbounded string surgery, regex priority) are not proved.",
+)
+CLAIMED["C07"] = dict(
+    category="other",
+    technique="complete enumeration of the escape table through the real compilers (regex parse tree must consist of literals) + bounded end-to-end search; known findings reported by witness class",
+    text="Exhausted (X): for all 67 admissible characters embedded in text and all ordered pairs, for the v1 and the v2 compiler, the produced regex parses to exactly the literal characters; the facts that make the sequential str.replace loop a character-wise map are checked on the real table. Bounded (B): generated literals alone and wrapped around a real part find exactly the lines containing them.",
+    note="No deductive obligation is claimed here: the compilers are unbounded str.replace/re.subn surgery outside the solvers' reach (DESIGN 2/C07); X is complete only for the stated alphabet and lengths. Known findings KF-C07-inner-anchor and KF-C07-backslash-v2 are reported; any failure outside these two witness classes is a violation.",
+)
+CLAIMED["C08"] = dict(
+    category="other",
+    technique="history induction lemma over the step contract (z3) whose clauses are obligations proved on the real update/_update/vcs.commit/rewrite_files code, plus bounded real-git histories",
+    text="The step contract of a successful update (start version per scope, gate: accepted and strictly greater, every configured file rewritten before anything is staged, exactly the configured paths staged, commit then tag named by the new version) is proved clause by clause on the real code (clauses tagged C08); the invariant-preservation lemma gives agreement after any finite history. What real git stores (one commit, only those files, tag on it) is outside any contract on bumpver's code: bounded evidence from seeded histories on real temporary repositories.",
+    note=TB + "A-git for everything git does with the commands; histories with branch switches are not explored by the bounded layer.",
+)
+CLAIMED["C15"] = dict(
+    category="other",
+    technique="exhaustive tag-table check, contract-based verification of the spelling normaliser (_parse_letter_version, all case variants, z3), bounded grammar check of the derived search pattern",
+    text="Exhausted: every tag of the regex alternatives and of the CLI has its PEP 440 short form and the vendored normaliser agrees. Proved: every spelling and letter case of a pre/post/dev marker normalises to the canonical letter and number. Bounded: for generated PEP 440-friendly patterns the text written for {pep440_version} is a PEP 440 version equal to {version}, normalised as the README states, accepted in full by the derived pattern, and equal to the PEP440 line.",
+    note="_convert_to_pep440 (string surgery) is not proved. Known finding KF-C15-trailing-zero-release is reported; other disagreements are violations.",
+)
+CLAIMED["C18"] = dict(
+    category="other",
+    technique="bounded differential check of the real readers (configparser / toml) on sibling projects that differ only in syntax",
+    text="Bounded (never counted as proved): seeded abstract configurations are rendered in six syntaxes (setup.cfg [bumpver]/[pycalver], pyproject.toml, bumpver.toml, .bumpver.toml, pycalver.toml) with every accepted boolean spelling, quoting style, 0..4 files x 1..3 patterns, glob entries, scopes and missing optional keys; config.init must return the same effective settings, always including the config file's own current_version line.",
+    note="No deductive obligation is claimed yet for the readers: they are thin glue over third-party parsers whose contracts would have to be assumed wholesale (DESIGN 2/C18); the check is labelled bounded.",
+)
+CLAIMED["C20"] = dict(
+    category="other",
+    technique="complete enumeration of the legacy calendar parts over every date 2000..2099 through the real code, contract-based proof of the engine dispatch agreement (z3), bounded bump chains",
+    text="Exhausted: every listed legacy calendar part x every date 2000-01-01..2099-12-31 renders to a text that its compiled pattern matches in full and reads back to the same field; the derived {pep440_pycalver}/{pep440_version} search patterns accept the rendered PEP 440 form. Proved: incr_dispatch uses the legacy engine for every pattern with a documented legacy part and only for patterns the gate and the config loader also treat as legacy. Bounded: chains of bumps on the documented composites are accepted, re-render to themselves and strictly increase ({pycalver} also as plain strings).",
+    note=TB + "{iso_week}/{us_week} are not among the parts the property lists (the legacy parser never reads them back).",
+)
 _PENDING = "check not built yet in this round (work in progress, see DESIGN.md section 2)"
-NOT_APPLICABLE = {p: _PENDING for p in ["C02","C07","C08","C15","C18","C20"]}
+NOT_APPLICABLE = {}
 NOTES = "Contract-based deductive verification of the real Python source (pyvc). See DESIGN.md."
